@@ -403,7 +403,7 @@ _STRS = ("", "p", "q", "Ab", "z z")
 
 
 class _Lex:
-    """Lexical generation context.  ``macros`` (name -> (params, mentions caller)) and ``nss`` are the macro and
+    """Lexical generation context.  ``macros`` (name -> (params, mentions caller, caller argument count)) and ``nss`` are the macro and
     namespace names probably defined at this point; they only steer the generator towards programs that render."""
 
     __slots__ = ("depth", "loopctl", "loopvis", "rec", "in_macro", "mrank", "loops", "macros", "nss")
@@ -423,15 +423,20 @@ class _Lex:
         return c
 
 
-def _has_caller_expr(body):
+def _caller_args(body):
+    """Largest argument count of a direct ``caller(...)`` call in a macro body, or None when there is none."""
+    best = None
     for s in body:
         for e in stmt_exprs(s):
-            if any(x[0] == "caller" for x in walk_expr(e)):
-                return True
+            for x in walk_expr(e):
+                if x[0] == "caller":
+                    best = max(best or 0, len(x[1]))
         for kind, b in sub_bodies(s):
-            if kind not in ("macro", "callblock") and _has_caller_expr(b):
-                return True
-    return False
+            if kind not in ("macro", "callblock"):
+                sub = _caller_args(b)
+                if sub is not None:
+                    best = max(best or 0, sub)
+    return best
 
 
 class _Gen:
@@ -568,7 +573,7 @@ class _Gen:
     def call(self, lex, d, want_caller=False):
         known = self.callable_macros(lex)
         pref = [m for m in known if lex.macros[m][1] == want_caller]
-        if pref and self.chance(7, 8):
+        if pref and (not self.errors or self.chance(7, 8)):
             known = pref
         if known and (not self.errors or self.chance(19, 20)):
             m = self.pick(known)
@@ -602,12 +607,12 @@ class _Gen:
             if lex.macros.get(name) is None or not self.chance(3, 4):
                 continue
             self.budget -= 1
-            params, has_caller = lex.macros[name]
+            params, has_caller, nca = lex.macros[name]
             npos = self.i(0, len(params))
             call = ["call", name, [self.expr(lex, 1) for _ in range(npos)],
                     [[q, self.expr(lex, 1)] for q in params[npos:] if self.chance(1, 3)]]
             if has_caller:
-                cps = [q for q in SCALARS[: self.i(0, 2)]]
+                cps = list(SCALARS[: (nca if self.chance(5, 6) or not self.errors else self.i(0, 2))])
                 use = ["callblock", cps, call, self.block(lex.child(loopctl=False, loopvis=False, rec=None, in_macro=False), 1, 2)]
             else:
                 use = ["out", call]
@@ -664,12 +669,15 @@ class _Gen:
         if k == "macro":
             return self.macro(lex)
         if k == "callblock":
+            call = self.call(lex, 2, want_caller=True)
             params = []
-            for _ in range(self.i(0, 2)):
+            nca = lex.macros[call[1]][2] if call[1] in lex.macros else 0
+            for _ in range(nca if self.chance(5, 6) or not self.errors else self.i(0, 2)):
                 p = self.scalar()
                 if p not in params:
                     params.append(p)
-            call = self.call(lex, 2, want_caller=True)
+            while len(params) < nca and not self.errors:
+                params.append([q for q in SCALARS if q not in params][0])
             # excluded by construction: `caller` inside a call block body (it names the call block's own,
             # absent, caller -- undocumented); break/continue and loop.* across the call boundary
             body = self.block(lex.child(loopctl=False, loopvis=False, rec=None, in_macro=False), 1, 4)
@@ -693,9 +701,9 @@ class _Gen:
             t2 = self.var()
             if t2 != t1:
                 targets.append(t2)
-        ik = self.weighted([("s", 6), ("t", 4), ("var", 1), ("list", 4), ("expr", 1)])
+        ik = self.weighted([("s", 6), ("t", 4), ("var", 1 if self.errors else 0), ("list", 4), ("expr", 1 if self.errors else 0)])
         if recursive:
-            ik = self.weighted([("t", 5), ("s", 1), ("var", 1)])
+            ik = self.weighted([("t", 5), ("s", 1), ("var", 1 if self.errors else 0)])
         if ik in ("s", "t"):
             it = ["name", ik]
         elif ik == "var":
@@ -738,7 +746,8 @@ class _Gen:
         body = self.block(mlex, 1, 4)
         if self.chance(1, 3):
             body.insert(self.i(0, len(body)), ["out", ["caller", [self.atom(mlex) for _ in range(self.i(0, 2))]]])
-        lex.macros[name] = (params, _has_caller_expr(body))
+        nca = _caller_args(body)
+        lex.macros[name] = (params, nca is not None, nca or 0)
         return ["macro", name, params, defaults, body]
 
     def atom_not(self, lex, banned):
